@@ -192,7 +192,7 @@ package queue
 //@ pure func isRetry(errs map[string]error, r string, tries int, max int) bool = has(errs, r) && retryable(errs[r], tries, max)
 //@ pure func isFail(errs map[string]error, r string, tries int, max int) bool = has(errs, r) && !retryable(errs[r], tries, max)
 //@ func (*Queue).tryDelivery
-//@   prop C01 C02
+//@   prop C01 C02 C18
 // C02: the failure report for terminally failed recipients is handed over before the spool forgets them (a crash
 // between the two leaves them in the spool, to be attempted and reported again, never unreported).
 //@   assert-call (*Queue).removeFromDisk : len(failedRcpts) > 0 ==> gDSNCalls == old(gDSNCalls) + 1
@@ -293,3 +293,18 @@ package queue
 //@   prop C10
 //@   requires q != nil && msgMeta != nil
 //@   ensures result1 == nil ==> isType(result0, "*queueDelivery") && as(result0, "*queueDelivery") != nil && as(result0, "*queueDelivery").meta != nil && as(result0, "*queueDelivery").meta.MsgMeta == msgMeta && as(result0, "*queueDelivery").meta.From == mailFrom
+
+// C10 / C02: what is re-read for an attempt after the first. The header handed to the target is parsed from the
+// spooled header file itself (the whole file: the parser's reader is a plain buffered reader on the opened file, not
+// a limited or filtered view), the body is the spooled body file, the metadata is what readMessageMeta read for this id;
+// a message with a missing body or header is not returned.
+//@ extern func github.com/emersion/go-message/textproto.ReadHeader(r *bufio.Reader) (h textproto.Header, err error)
+//@ func (*Queue).openMessage
+//@   prop C10 C02
+//@   modifies *
+//@   requires q != nil
+//@   assert-call (*Queue).readMessageMeta : $id == id
+//@   assert-call os.Stat : $name == bodyP(q, id)
+//@   assert-call os.Open : $name == hdrP(q, id)
+//@   assert-call github.com/emersion/go-message/textproto.ReadHeader : isType(readerSrc($r), "*os.File") && as(readerSrc($r), "*os.File") != nil && as(readerSrc($r), "*os.File").path == hdrP(q, id)
+//@   ensures result3 == nil ==> result0 != nil && isType(result2, "buffer.FileBuffer") && as(result2, "buffer.FileBuffer").Path == bodyP(q, id)
